@@ -65,3 +65,52 @@ Definition c18s_entry : entry := fun inp =>
       end
   | _ => [(-1)%Z]
   end.
+
+(* ------------------------------------------------------------------ *)
+(** C03 entry *)
+From Verif Require Import M2.Reply.
+
+Definition role_table (role : Z) : role_tbl :=
+  if (role =? 0)%Z then Build_role_tbl profiles16 handle_cp16 profcheck_cp16 default_arm_cp16 false error_class_of_tag
+  else if (role =? 1)%Z then Build_role_tbl profiles16 handle_cs16 profcheck_cs16 default_arm_cs16 false error_class_of_tag
+  else if (role =? 2)%Z then Build_role_tbl profiles201 handle_cs201 profcheck_cs201 default_arm_cs201 true error_class_of_tag
+  else Build_role_tbl profiles201 handle_csms201 profcheck_csms201 default_arm_csms201 true error_class_of_tag.
+
+Definition role_setters (role : Z) : list (string * string) :=
+  if (role =? 0)%Z then setters_cp16 else if (role =? 1)%Z then setters_cs16 else if (role =? 2)%Z then setters_cs201 else setters_csms201.
+
+Fixpoint get_lps (n : nat) (l : list Z) : list string * list Z :=
+  match n with
+  | O => ([], l)
+  | S k => let '(x, r) := get_lp l in let '(xs, r') := get_lps k r in (str_of x :: xs, r')
+  end.
+
+Fixpoint z_of_str (s : string) : list Z :=
+  match s with EmptyString => [] | String a r => Z.of_nat (nat_of_ascii a) :: z_of_str r end.
+
+Definition enc_reply (r : reply) : list Z :=
+  match r with RResult => [3%Z; 0%Z] | RError c => 4%Z :: put_lp (z_of_str c) end.
+
+(** [role; outcome; ntags; tags...; action; nskipped; skipped setters...]: outcome 0 valid, 1 invalid, 2 nil, 3 plain error,
+    4 ocpp.Error SecurityError, 5 ocpp.Error with a bad code.
+    -> [number of replies; replies...; handler invoked; method name] *)
+Definition c03_entry : entry := fun inp =>
+  match inp with
+  | role :: oc :: ntags :: r =>
+      let '(tags, r1) := get_lps (Z.to_nat ntags) r in
+      let '(action, r2) := get_lp r1 in
+      match r2 with
+      | nsk :: r3 =>
+          let '(skipped, _) := get_lps (Z.to_nat nsk) r3 in
+          let T := role_table role in
+          let skipped_fields := map snd (filter (fun sf => mem_s (fst sf) skipped) (role_setters role)) in
+          let present := fun f => negb (mem_s f skipped_fields) in
+          let o := if (oc =? 0)%Z then OValid else if (oc =? 1)%Z then OInvalid tags else if (oc =? 2)%Z then ONil
+                   else if (oc =? 3)%Z then OPlain else if (oc =? 4)%Z then OErrValid "SecurityError" else OErrBad in
+          let '(reps, arm) := answer T present (str_of action) o in
+          List.app (zlen reps :: concat (map enc_reply reps))
+            (match arm with Some a => 1%Z :: put_lp (z_of_str (h_method a)) | None => [0%Z; 0%Z] end)
+      | _ => [(-1)%Z]
+      end
+  | _ => [(-1)%Z]
+  end.
